@@ -35,6 +35,9 @@ static size_t g_pl_sz;
 	if ((n) > 0 && VERIF_SAME_OBJECT((p), g_pl_lo) && \
 	    env_overlaps((p), (n))) g_payload_dirty = true; } while (0)
 static bool env_overlaps(const void *p, size_t n);
+#ifdef VERIF_REPLAY
+#define ENV_IS_PAYLOAD(p, n) env_overlaps((p), 1)
+#endif
 #include "C10/rd_env.h"
 #include "lib/sqfs/src/meta_reader.c"
 
@@ -86,8 +89,6 @@ void harness(void)
 	(memset)(m->data, 0xA5, sizeof(m->data));
 	(memset)(m->scratch, 0x5A, sizeof(m->scratch));
 #endif
-	if (g_k < sizeof(m->data))
-		m->data[g_k] = verif_nd_u8("old.byte");
 
 	block_start = verif_nd_u64("block_start");
 	offset = verif_nd_size("offset");
@@ -127,11 +128,8 @@ void harness(void)
 		if (loaded)
 			loaded = (m->next_block == block_start + 2 + g_rd[1].n) &&
 				g_rd[1].n <= sizeof(m->data);
-		if (loaded && g_blk_n == 0 && g_img_off >= block_start + 2 &&
-		    g_img_off - (block_start + 2) < g_rd[1].n) {
-			loaded = (m->data[g_img_off - (block_start + 2)] ==
-				  g_img_val);
-		}
+		if (loaded && g_blk_n == 0 && g_k < g_rd[1].n)
+			loaded = (m->data[g_k] == g_rd[1].vk);
 	}
 
 	if (ret == 0) {
